@@ -181,6 +181,11 @@ impl Ctx {
         true
     }
 
+    /// true unless this run is restricted to one case (replay) or skips cases known to hang
+    pub fn is_full_run(&self) -> bool {
+        self.only.is_none() && self.skip.is_empty()
+    }
+
     pub fn end(&self) {
         CUR_START_MS.store(0, Ordering::Relaxed);
     }
